@@ -89,6 +89,11 @@ CLAIMED = {
    text="The avra-rs binary is rebuilt from the working tree and run in fresh scratch directories over 14 sources x 5 stems x 6 -o/-e/-v option sets and 5 output faults on either output: on a failing build the exit status must be non-zero, something must be printed and no file may be created, removed or altered (sentinels at the default output places); on success the flash/EEPROM HEX files must sit at the documented paths and decode to exactly the images build_file returns in process; unwritable outputs must be reported with a non-zero status. Thorough adds the release binary and an strace leg showing that failing builds open nothing for writing.",
    note="Expected images from the library in process (same file); decoding with refmodel/ihex.rs. An empty flash image producing no file is accepted. HOME/XDG_CONFIG_HOME point into the scratch directory.",
    design="§6 C18"),
+ "C17": dict(
+   technique="history/schedule monitor with process-isolated reference results: sequential histories, barrier-released concurrent threads with injected yields, fresh processes (new hash keys), BUILD-hook invariant at every build start, DEVICES fingerprint, Miri data-race/UB interpreter on a concurrent workload",
+   text="For a pool of ~67 programs whose symbols, macros, #defines, aliases, devices and messages collide by name across programs (valid and failing, build_str and build_file with a shared include directory) the isolated result of each is taken from 8 (thorough 64) fresh processes - which must agree among themselves (hash-order independence) - and must be reproduced exactly in 200 (5000) random sequential histories of 20-100 builds and in 60 (800) concurrent rounds of 2-16 threads, half with yields injected at the hooks; the BUILD hook must show empty symbol tables and the default device at every build start; the device table's fingerprint must not change; Miri interprets a 3-thread workload under 2 (32) scheduler seeds with its data-race detector.",
+   note="Builds share only the immutable DEVICES table, so the monitors aim at making introduced sharing visible (name collisions, device selection, overlap accounting from global sequence numbers: tens of thousands of overlapping build pairs per run), not at enumerating schedules. Fingerprint = hash of the full BuildResult / error text.",
+   design="§6 C17"),
 }
 
 PENDING_REASON = "check not built yet in this round (work in progress; design in DESIGN.md §6)"
